@@ -182,8 +182,12 @@ fn verif_replay() {
             let _ = tokio::time::timeout(std::time::Duration::from_millis(500), relay).await;
             let want_server: &[u8] = if client_early { b"client-pipelined" } else { b"" };
             let want_client: &[u8] = if server_early { b"server-early" } else { b"" };
+            // the per-direction counters of the connection: the early bytes were relayed, so they are in them
+            let rd = |st: &ContextStatistics| serde_json::to_value(st).ok().and_then(|v| v["read_bytes"].as_u64()).unwrap_or(0) as usize;
+            let (cc, sc) = { let g = ctx.read().await; (rd(&g.props().client_stat), rd(&g.props().server_stat)) };
             serde_json::json!({"panicked": false, "server_received": String::from_utf8_lossy(&at_server[..ns]), "client_received": String::from_utf8_lossy(&at_client[..nc]),
-                               "handover_complete": &at_server[..ns] == want_server && &at_client[..nc] == want_client})
+                               "handover_complete": &at_server[..ns] == want_server && &at_client[..nc] == want_client,
+                               "client_bytes_counted": cc, "server_bytes_counted": sc, "early_bytes_counted": cc == want_server.len() && sc == want_client.len()})
         });
         println!("VERIF-OUTCOME {}", out);
         return;
